@@ -108,7 +108,6 @@ CLAIMS = {
 }
 
 NOT_CLAIMED = {
- "C07": "check under construction (see DESIGN.md §10 build order); not claimed yet",
 }
 
 PENDING = "check under construction in this session (see DESIGN.md §10 build order); not claimed yet"
